@@ -24,6 +24,9 @@ pub struct Case {
   pub execution: String,
   /// 0 = add+commit, 1 = compact, 2 = delete-only commit
   pub misuse: u8,
+  /// `candidate_size` of the paged requests (larger than the page, as used with rescoring)
+  #[serde(default)]
+  pub candidate_size: Option<usize>,
 }
 
 pub struct C11;
@@ -52,6 +55,11 @@ fn request(case: &Case, sort: &[Value], limit: usize, cursor: Option<&str>) -> V
   if let Some(c) = cursor {
     r["cursor"] = json!(c);
   }
+  if let Some(cs) = case.candidate_size {
+    if limit == case.page {
+      r["candidate_size"] = json!(cs);
+    }
+  }
   r
 }
 
@@ -59,7 +67,7 @@ impl Property for C11 {
   type Case = Case;
   const ID: &'static str = "C11";
   fn rule() -> String {
-    "cases = a tie-heavy corpus (tiny value domains, short texts) of 5-60 documents in 1-4 segments with deletions, a query (match_all or a scored tree), optional filter, a sort plan of 0-3 keys over _score/keyword/i64/f64, page size 1..7 and an execution strategy; the walk over next_cursor is compared with one request whose limit covers all matches (order, ids, scores within tolerance, no duplicate, full pages, last page without cursor, total_hits_estimate <= true count and == when exhaustive); then the first page's cursor is replayed after an add+commit, a compaction or a delete-only commit, and against a different sort plan (must be rejected; after a delete-only commit: rejected or live hits). Non-trivial = walk of >=3 pages crossing a segment boundary with a tie (equal user sort key) on a page boundary; distinct = hash of (query, sort, page, corpus)".into()
+    "cases = a tie-heavy corpus (tiny value domains, short texts) of 5-60 documents in 1-4 segments with deletions, a query (match_all or a scored tree), optional filter, a sort plan of 0-3 keys over _score/keyword/i64/f64, page size 1..7, an execution strategy and (30%) a candidate_size of page+1..8 on the paged requests; the walk over next_cursor is compared with one request whose limit covers all matches (order, ids, scores within tolerance, no duplicate, full pages, last page without cursor, total_hits_estimate <= true count and == when exhaustive); then the first page's cursor is replayed after an add+commit, a compaction or a delete-only commit, and against a different sort plan (must be rejected; after a delete-only commit: rejected or live hits). Non-trivial = walk of >=3 pages crossing a segment boundary with a tie (equal user sort key) on a page boundary; distinct = hash of (query, sort, page, corpus)".into()
   }
   fn assumptions() -> Vec<String> {
     vec!["a cursor replayed after a delete-only commit (index generation unchanged) is judged leniently: an error, or hits that are live in the new state (scores and therefore positions legitimately change with the segment statistics)".into()]
@@ -76,8 +84,8 @@ impl Property for C11 {
     g.phrases = false;
     let w = scoreworld::world(WorldOpts { min_docs: 5, max_docs: 60, max_commits: 4, deletes: true, ties: true, vocab: 6 });
     let query = prop_oneof![2 => Just(json!({"type": "match_all"})), 5 => g.tree(2)];
-    (w, query, proptest::option::weighted(0.2, c08::root_filter(&schema, 1)), scoreworld::sort_plan(3), scoreworld::sort_plan(2), 1usize..8, select(vec!["bm25", "wand", "bmw"]), 0u8..3)
-      .prop_map(|(world, query, filter, sort, other_sort, page, execution, misuse)| Case { world, query, filter, sort, other_sort, page, execution: execution.to_string(), misuse })
+    (w, query, proptest::option::weighted(0.2, c08::root_filter(&schema, 1)), scoreworld::sort_plan(3), scoreworld::sort_plan(2), 1usize..8, select(vec!["bm25", "wand", "bmw"]), 0u8..3, proptest::option::weighted(0.3, 1usize..9))
+      .prop_map(|(world, query, filter, sort, other_sort, page, execution, misuse, extra)| Case { world, query, filter, sort, other_sort, page, execution: execution.to_string(), misuse, candidate_size: extra.map(|e| page + e) })
       .boxed()
   }
   fn run(case: &Case, _ctx: &Ctx) -> Outcome {
@@ -187,6 +195,9 @@ impl Property for C11 {
       return out;
     }
     out.class(format!("pages:{}", pages.min(4)));
+    if case.candidate_size.is_some() {
+      out.class("candidate-size");
+    }
     // non-trivial: >=3 pages, crossing segments, tie on a page boundary
     if pages >= 3 && built.segments >= 2 {
       let key_of = |id: &str| -> Vec<Value> {
